@@ -504,6 +504,113 @@ theorem parseUnifiedRange_fst_indep (h h' : Hunk) (line : Bytes) :
           cases consumeStr (str " @@") rest <;> rfl
 
 
+/-! ### a CR after the text of a range line does not unmake it (D85: `get_line` takes a CR at the very end of the patch away) -/
+
+theorem takeWhile_snoc_false {α} (p : α → Bool) (l : List α) (a : α) (h : p a = false) :
+    (l ++ [a]).takeWhile p = l.takeWhile p := by
+  induction l with
+  | nil => simp [h]
+  | cons x l ih =>
+    simp only [List.cons_append, List.takeWhile_cons]
+    split
+    · rw [ih]
+    · rfl
+
+theorem dropWhile_snoc_false {α} (p : α → Bool) (l : List α) (a : α) (h : p a = false) :
+    (l ++ [a]).dropWhile p = l.dropWhile p ++ [a] := by
+  induction l with
+  | nil => simp [h]
+  | cons x l ih =>
+    simp only [List.cons_append, List.dropWhile_cons]
+    split
+    · rw [ih]
+    · rfl
+
+theorem consumeLineNumber_snocCR (r : Bytes) (cur : Int) :
+    consumeLineNumber (r ++ [CR]) cur =
+      ((consumeLineNumber r cur).1, (consumeLineNumber r cur).2.1, (consumeLineNumber r cur).2.2 ++ [CR]) := by
+  have hcr : isDigit CR = false := by decide
+  cases r with
+  | nil => simp [consumeLineNumber, hcr]
+  | cons c r =>
+    have e : (c :: r) ++ [CR] = c :: (r ++ [CR]) := rfl
+    unfold consumeLineNumber
+    rw [e]
+    simp only
+    split
+    · rw [← e, takeWhile_snoc_false _ _ _ hcr, dropWhile_snoc_false _ _ _ hcr]
+    · rfl
+
+theorem consumeStr_snoc_some {s r r' : Bytes} (t : Bytes) (h : consumeStr s r = some r') :
+    consumeStr s (r ++ t) = some (r' ++ t) := by
+  unfold consumeStr at h ⊢
+  split at h
+  · rename_i hp
+    simp only [Option.some.injEq] at h
+    subst h
+    have hp' : s <+: r := List.isPrefixOf_iff_prefix.1 hp
+    obtain ⟨u, rfl⟩ := hp'
+    have : s.isPrefixOf (s ++ u ++ t) = true := List.isPrefixOf_iff_prefix.2 ⟨u ++ t, by simp⟩
+    rw [if_pos this]
+    simp
+  · cases h
+
+theorem consumeStr_comma_snocCR (r : Bytes) : consumeStr [44] (r ++ [CR]) = (consumeStr [44] r).map (· ++ [CR]) := by
+  cases r with
+  | nil => simp [consumeStr, CR]
+  | cons c r => simp [consumeStr]
+
+theorem consumeRange_snocCR (r : Range) (inp : Bytes) :
+    consumeRange r (inp ++ [CR]) = ((consumeRange r inp).1, (consumeRange r inp).2.1, (consumeRange r inp).2.2 ++ [CR]) := by
+  unfold consumeRange
+  rw [consumeLineNumber_snocCR]
+  generalize consumeLineNumber inp r.start = a
+  rcases a with ⟨ok, v, rest⟩
+  simp only
+  cases ok
+  · rfl
+  · simp only [Bool.not_true, Bool.false_eq_true, if_false]
+    rw [consumeStr_comma_snocCR]
+    cases consumeStr [44] rest with
+    | none => rfl
+    | some rest2 =>
+      simp only [Option.map_some]
+      rw [consumeLineNumber_snocCR]
+
+/-- a range line followed by a CR is a range line -/
+theorem parseUnifiedRange_snocCR (h : Hunk) (line : Bytes) (hp : (parseUnifiedRange h line).1 = true) :
+    (parseUnifiedRange h (line ++ [CR])).1 = true := by
+  rw [parseUnifiedRange_eq] at hp ⊢
+  cases h1 : consumeStr (str "@@ -") line with
+  | none => rw [h1] at hp; cases hp
+  | some r1 =>
+    rw [h1] at hp
+    rw [consumeStr_snoc_some [CR] h1]
+    simp only at hp ⊢
+    rw [consumeRange_snocCR]
+    generalize consumeRange h.old r1 = a at hp
+    rcases a with ⟨ok, oldR, r2⟩
+    simp only at hp ⊢
+    cases ok
+    · cases hp
+    · simp only [Bool.not_true, Bool.false_eq_true, if_false] at hp ⊢
+      cases h2 : consumeStr (str " +") r2 with
+      | none => rw [h2] at hp; cases hp
+      | some r3 =>
+        rw [h2] at hp
+        rw [consumeStr_snoc_some [CR] h2]
+        simp only at hp ⊢
+        rw [consumeRange_snocCR]
+        generalize consumeRange h.new r3 = b at hp
+        rcases b with ⟨ok2, newR, r4⟩
+        simp only at hp ⊢
+        cases ok2
+        · cases hp
+        · simp only [Bool.not_true, Bool.false_eq_true, if_false] at hp ⊢
+          cases h3 : consumeStr (str " @@") r4 with
+          | none => rw [h3] at hp; cases hp
+          | some r5 => rw [consumeStr_snoc_some [CR] h3]
+
 /-! ### the hunk loop of the unified parser over emitted text -/
 
 /-- what `unifiedLoop` does after the last line of a hunk -/
@@ -942,15 +1049,33 @@ theorem afterHunk_tail (fuel n : Nat) (hunks : List Hunk) (hk : Hunk) (tail : Li
       unfold tailOkUnified at ht
       simp only [Bool.and_eq_true, Bool.not_eq_true'] at ht
       exact ht.1
-    have hg : ∃ l' par5, Parser.getLine ⟨⟨l :: r, false, false⟩, n⟩ = (some l', par5) ∧ l'.content = l.content := by
+    have hg : ∃ l' par5, Parser.getLine ⟨⟨l :: r, false, false⟩, n⟩ = (some l', par5) ∧
+        (parseUnifiedRange hk l'.content).1 = false := by
       by_cases hn : l.newline = .none
-      · refine ⟨⟨l.content, .lf⟩, ⟨⟨r, true, false⟩, n + 1⟩, ?_, rfl⟩
+      · by_cases hcr : l.content.getLast? = some CR
+        · -- the CR at the very end of the text is taken away (D85): what is left is no range line either
+          refine ⟨⟨l.content.dropLast, .crlf⟩, ⟨⟨r, true, false⟩, n + 1⟩, ?_, ?_⟩
+          · simp [Parser.getLine, PStream.getLine, hn, hcr]
+          · cases hb : (parseUnifiedRange hk l.content.dropLast).1 with
+            | false => rfl
+            | true =>
+              have := parseUnifiedRange_snocCR hk _ hb
+              have e : l.content.dropLast ++ [CR] = l.content := by
+                obtain ⟨d, hd⟩ : ∃ d, l.content = d ++ [CR] := by
+                  rcases List.eq_nil_or_concat l.content with h0 | ⟨d, b, h0⟩
+                  · rw [h0] at hcr; cases hcr
+                  · rw [h0] at hcr; simp at hcr; subst hcr; exact ⟨d, by simpa using h0⟩
+                rw [hd]; simp
+              rw [e, hp] at this
+              cases this
+        · refine ⟨⟨l.content, .lf⟩, ⟨⟨r, true, false⟩, n + 1⟩, ?_, hp⟩
+          simp [Parser.getLine, PStream.getLine, hn, hcr]
+      · refine ⟨l, ⟨⟨r, false, false⟩, n + 1⟩, ?_, hp⟩
         simp [Parser.getLine, PStream.getLine, hn]
-      · refine ⟨l, ⟨⟨r, false, false⟩, n + 1⟩, ?_, rfl⟩
-        simp [Parser.getLine, PStream.getLine, hn]
-    obtain ⟨l', par5, hg, hl'⟩ := hg
-    simp only [hg, hl']
-    generalize parseUnifiedRange hk l.content = res at hp
+    clear hp
+    obtain ⟨l', par5, hg, hp⟩ := hg
+    simp only [hg]
+    generalize parseUnifiedRange hk l'.content = res at hp
     rcases res with ⟨ok, h'⟩
     simp only at hp
     subst hp
@@ -1229,7 +1354,7 @@ theorem getLine_ne_none {p : Parser} {l : Line} {p' : Parser} (h : p.getLine = (
     simp only [Prod.mk.injEq, Option.some.injEq] at h
     obtain ⟨rfl, _⟩ := h
     split
-    · simp
+    · split <;> simp
     · assumption
 
 /-- `get_line` only ever shortens the list of unread lines -/
@@ -1494,11 +1619,25 @@ theorem marker_follows_iff_none (pl : PatchLine) (rest : List PatchLine) (after 
 
 /-! ### the final newline of the patch text does not matter to the unified body parser -/
 
-/-- two parsers over the same text, `q`'s text lacking the newline of its last line (`c`):
-    either both stand before the same lines, or both have read everything -/
+/-- the last line of a text whose final newline is missing, as `get_line` hands it out: an LF line — or, if it ends in a CR
+    (what is left of a CR LF, D85), a CR LF line without that CR -/
+def lastLine (c : Bytes) : Line :=
+  if c.getLast? = some CR then ⟨c.dropLast, .crlf⟩ else ⟨c, .lf⟩
+
+theorem lastLine_ne_none (c : Bytes) : (lastLine c).newline ≠ .none := by
+  unfold lastLine; split <;> simp
+
+theorem lastLine_of_noCR {c : Bytes} (h : c.getLast? ≠ some CR) : lastLine c = ⟨c, .lf⟩ := by
+  unfold lastLine; rw [if_neg h]
+
+theorem lastLine_snocCR (c : Bytes) : lastLine (c ++ [CR]) = ⟨c, .crlf⟩ := by
+  unfold lastLine; simp
+
+/-- two parsers over the same text, `q`'s text lacking the newline of its last line (`c`; in `p`'s text that line stands
+    as `get_line` hands it out, `lastLine c`): either both stand before the same lines, or both have read everything -/
 def Sim (c : Bytes) (p q : Parser) : Prop :=
   (∃ suf, (∀ l ∈ suf, l.newline ≠ .none) ∧
-      p.s = ⟨suf ++ [⟨c, .lf⟩], false, false⟩ ∧ q.s = ⟨suf ++ [⟨c, .none⟩], false, false⟩) ∨
+      p.s = ⟨suf ++ [lastLine c], false, false⟩ ∧ q.s = ⟨suf ++ [⟨c, .none⟩], false, false⟩) ∨
   (p.s.rest = [] ∧ q.s.rest = [] ∧ q.s.eof = true)
 
 theorem Sim.getLine {c : Bytes} {p q : Parser} (h : Sim c p q) :
@@ -1510,11 +1649,18 @@ theorem Sim.getLine {c : Bytes} {p q : Parser} (h : Sim c p q) :
     subst hp hq
     cases suf with
     | nil =>
-      refine ⟨rfl, Or.inr ⟨rfl, rfl, rfl⟩⟩
+      have e1 : Parser.getLine ⟨⟨[] ++ [lastLine c], false, false⟩, pn⟩
+          = (some (lastLine c), ⟨⟨[], false, false⟩, pn + 1⟩) := by
+        simp [Parser.getLine, PStream.getLine, lastLine_ne_none c]
+      have e2 : Parser.getLine ⟨⟨[] ++ [⟨c, .none⟩], false, false⟩, qn⟩
+          = (some (lastLine c), ⟨⟨[], true, false⟩, qn + 1⟩) := by
+        simp [Parser.getLine, PStream.getLine, lastLine]
+      rw [e1, e2]
+      exact ⟨rfl, Or.inr ⟨rfl, rfl, rfl⟩⟩
     | cons x suf =>
       have hx : x.newline ≠ .none := hsuf x List.mem_cons_self
-      have e1 : Parser.getLine ⟨⟨(x :: suf) ++ [⟨c, .lf⟩], false, false⟩, pn⟩
-          = (some x, ⟨⟨suf ++ [⟨c, .lf⟩], false, false⟩, pn + 1⟩) := by
+      have e1 : Parser.getLine ⟨⟨(x :: suf) ++ [lastLine c], false, false⟩, pn⟩
+          = (some x, ⟨⟨suf ++ [lastLine c], false, false⟩, pn + 1⟩) := by
         simp [Parser.getLine, PStream.getLine, hx]
       have e2 : Parser.getLine ⟨⟨(x :: suf) ++ [⟨c, .none⟩], false, false⟩, qn⟩
           = (some x, ⟨⟨suf ++ [⟨c, .none⟩], false, false⟩, qn + 1⟩) := by
@@ -1532,9 +1678,19 @@ theorem Sim.peek {c : Bytes} {p q : Parser} (h : Sim c p q) : p.s.peek = BACKSLA
   · rw [hp, hq]
     cases suf with
     | nil =>
-      cases c with
-      | nil => simp only [PStream.peek, List.nil_append]; decide
-      | cons a as => simp [PStream.peek]
+      by_cases hcr : c.getLast? = some CR
+      · obtain ⟨d, rfl⟩ : ∃ d, c = d ++ [CR] := by
+          rcases List.eq_nil_or_concat c with h0 | ⟨d, b, h0⟩
+          · rw [h0] at hcr; cases hcr
+          · rw [h0] at hcr; simp at hcr; subst hcr; exact ⟨d, by simpa using h0⟩
+        rw [lastLine_snocCR]
+        cases d with
+        | nil => simp only [PStream.peek, List.nil_append]
+        | cons a as => simp [PStream.peek]
+      · rw [lastLine_of_noCR hcr]
+        cases c with
+        | nil => simp only [PStream.peek, List.nil_append]; decide
+        | cons a as => simp [PStream.peek]
     | cons x suf => simp [PStream.peek]
   · unfold PStream.peek
     rw [hp, hq]
@@ -1667,22 +1823,22 @@ theorem unifiedLoop_sim (c : Bytes) : ∀ (fuel : Nat) (s t : UState), USim c s 
         · exact ih _ _ ⟨hsim1, h2, rfl, rfl, h5, h6⟩
         · exact ih _ _ ⟨hsim1, h2, rfl, rfl, rfl, rfl⟩
 
-/-- **the final newline of the patch text does not matter**: the unified body parser reads the same hunks (or fails in the
-    same way) from a text and from that text without the newline of its last line -/
-theorem parseUnifiedBody_final_newline (ls : List Line) (c : Bytes) (n : Nat) (hls : ∀ l ∈ ls, l.newline ≠ .none) :
+/-- the unified body parser reads the same hunks (or fails in the same way) from a text whose last line lacks its newline
+    and from that text with the last line as `get_line` hands it out (`lastLine`) -/
+theorem parseUnifiedBody_lastLine (ls : List Line) (c : Bytes) (n : Nat) (hls : ∀ l ∈ ls, l.newline ≠ .none) :
     (parseUnifiedBody ⟨⟨ls ++ [⟨c, .none⟩], false, false⟩, n⟩).map (·.1)
-      = (parseUnifiedBody ⟨⟨ls ++ [⟨c, .lf⟩], false, false⟩, n⟩).map (·.1) := by
-  have hsim : Sim c ⟨⟨ls ++ [⟨c, .lf⟩], false, false⟩, n⟩ ⟨⟨ls ++ [⟨c, .none⟩], false, false⟩, n⟩ :=
+      = (parseUnifiedBody ⟨⟨ls ++ [lastLine c], false, false⟩, n⟩).map (·.1) := by
+  have hsim : Sim c ⟨⟨ls ++ [lastLine c], false, false⟩, n⟩ ⟨⟨ls ++ [⟨c, .none⟩], false, false⟩, n⟩ :=
     Or.inl ⟨ls, hls, rfl, rfl⟩
   have hlen := hsim.length
-  have := unifiedLoop_sim c ((ls ++ [(⟨c, .lf⟩ : Line)]).length + 2)
-    { par := ⟨⟨ls ++ [⟨c, .lf⟩], false, false⟩, n⟩ } { par := ⟨⟨ls ++ [⟨c, .none⟩], false, false⟩, n⟩ }
+  have := unifiedLoop_sim c ((ls ++ [lastLine c]).length + 2)
+    { par := ⟨⟨ls ++ [lastLine c], false, false⟩, n⟩ } { par := ⟨⟨ls ++ [⟨c, .none⟩], false, false⟩, n⟩ }
     ⟨hsim, rfl, rfl, rfl, rfl, rfl⟩
   unfold parseUnifiedBody
   simp only at hlen ⊢
   rw [← hlen]
   revert this
-  generalize unifiedLoop _ { par := ⟨⟨ls ++ [⟨c, .lf⟩], false, false⟩, n⟩ } = r1
+  generalize unifiedLoop _ { par := ⟨⟨ls ++ [lastLine c], false, false⟩, n⟩ } = r1
   generalize unifiedLoop _ { par := ⟨⟨ls ++ [⟨c, .none⟩], false, false⟩, n⟩ } = r2
   intro hr
   rcases r1 with e1 | ⟨b1, s1⟩ <;> rcases r2 with e2 | ⟨b2, s2⟩
@@ -1696,6 +1852,21 @@ theorem parseUnifiedBody_final_newline (ls : List Line) (c : Bytes) (n : Nat) (h
       all_goals rfl
     · simp only [k1]
       rfl
+
+/-- **the final newline of the patch text does not matter**: the unified body parser reads the same hunks (or fails in the
+    same way) from a text and from that text without the newline of its last line.
+    (`hcr`, with the model (D85): unless the text then ends in a bare CR — that case is `parseUnifiedBody_final_cr`) -/
+theorem parseUnifiedBody_final_newline (ls : List Line) (c : Bytes) (n : Nat) (hls : ∀ l ∈ ls, l.newline ≠ .none)
+    (hcr : c.getLast? ≠ some CR) :
+    (parseUnifiedBody ⟨⟨ls ++ [⟨c, .none⟩], false, false⟩, n⟩).map (·.1)
+      = (parseUnifiedBody ⟨⟨ls ++ [⟨c, .lf⟩], false, false⟩, n⟩).map (·.1) := by
+  rw [parseUnifiedBody_lastLine ls c n hls, lastLine_of_noCR hcr]
+
+/-- a text that ends in a bare CR is read as the text that ends in CR LF: the LF of the last line does not matter -/
+theorem parseUnifiedBody_final_cr (ls : List Line) (c : Bytes) (n : Nat) (hls : ∀ l ∈ ls, l.newline ≠ .none) :
+    (parseUnifiedBody ⟨⟨ls ++ [⟨c ++ [CR], .none⟩], false, false⟩, n⟩).map (·.1)
+      = (parseUnifiedBody ⟨⟨ls ++ [⟨c, .crlf⟩], false, false⟩, n⟩).map (·.1) := by
+  rw [parseUnifiedBody_lastLine ls (c ++ [CR]) n hls, lastLine_snocCR]
 
 /-! ### the context writer on writable hunks -/
 
